@@ -5,7 +5,7 @@
    [wf_env e] = the table of e is one of those five and the gas-table prices are positive; it holds
    of every environment [env_of cfg height ...] (C07_env_wf).  Statements only; proofs in Evm/InterpProofs*.v. *)
 From Coq Require Import ZArith List Bool.
-From AQ Require Import Evm.OpsModel Evm.Interp Evm.InterpProofs Evm.InterpProofs2 Evm.InterpProofs3.
+From AQ Require Import Evm.OpsModel Evm.Interp Evm.InterpProofs Evm.InterpProofs2 Evm.InterpProofs3 Evm.InterpProofsStatic.
 Import ListNotations.
 Local Open Scope Z_scope.
 
@@ -76,21 +76,34 @@ Theorem C07_failed_create_reverts : forall rec e w rd tr depth ro caller code ga
 Proof. exact create_failed_reverts. Qed.
 Print Assumptions C07_failed_create_reverts.
 
-(* (5) static frames.  Full statement (NOT proved; see below):
-     forall code, a frame with readOnly set, under Byzantium rules, hands back a world with the same
-     balances, storage, code, nonces and logs.
-   Proved part (_partial): under Byzantium rules, in a read-only frame, every instruction whose execute
-   function changes the world (SSTORE, LOGn, CREATE, SELFDESTRUCT — flagged `writes` in the regenerated
-   tables, InterpProofs.tables_ok) ends the frame with an error before anything is changed.  Missing:
-   the induction over the loop and the nested frames (value-less CALLs below a static frame), which
-   the correspondence runs and the direct oracle (state root equal around every STATICCALL) cover. *)
-Theorem C07_static_write_rejected_partial : forall rec e w fr, wf_env e -> e_byzantium e = true -> f_ro fr = true ->
+(* (5) static frames: under Byzantium rules (chainRules.IsByzantium, which is what enforceRestrictions
+   tests), for every code, input, gas and fuel, at every depth and from every mode, the frame of a
+   STATICCALL — and more generally every frame that runs with readOnly set, with everything below it —
+   hands back a world in which every address has the same balance, nonce, code and storage and the logs
+   are the same (same_obs; what may differ: an empty account may have come into existence through a
+   value-less CALL, exactly as in the code).  Uses, from the regenerated tables: the state-changing
+   instructions carry `writes`, and opCall is bound at 0xf1 only (InterpProofsStatic.call_pos_all). *)
+Theorem C07_static_is_readonly : forall fuel e w rd tr depth caller addr input gas,
+  wf_env e -> e_byzantium e = true ->
+  let w' := o_world (do_staticcall (interp fuel e) e w rd tr depth caller addr input gas) in
+  (forall a, get_balance w a = get_balance w' a /\ get_nonce w a = get_nonce w' a /\ get_code w a = get_code w' a /\
+             forall k, get_state w a k = get_state w' a k) /\
+  w_logs w = w_logs w'.
+Proof. exact static_is_readonly. Qed.
+Print Assumptions C07_static_is_readonly.
+Theorem C07_readonly_frame_is_readonly : forall fuel e w fr,
+  wf_env e -> e_byzantium e = true -> f_ro fr = true -> same_obs w (o_world (interp fuel e w fr)).
+Proof. exact readonly_frame_is_readonly. Qed.
+Print Assumptions C07_readonly_frame_is_readonly.
+
+(* the single-step form: a state-changing instruction met in a read-only frame ends the frame at once *)
+Theorem C07_static_write_rejected : forall rec e w fr, wf_env e -> e_byzantium e = true -> f_ro fr = true ->
   exec_writes (c_exec (nth (Z.to_nat (get_op (f_code fr) (f_pc fr))) (e_tbl e) invalid_cop)) = true ->
   exists o, step rec e w fr = S_done o /\ o_world o = w /\ is_failure (o_res o) = true.
 Proof. exact static_write_rejected. Qed.
-Print Assumptions C07_static_write_rejected_partial.
+Print Assumptions C07_static_write_rejected.
 
-(* REFUTED for the mainnet schedule between HF5 (22800) and HF7 (36050): the Spring instruction set
+(* The premise e_byzantium e = true cannot be dropped.  REFUTED for the mainnet schedule between HF5 (22800) and HF7 (36050): the Spring instruction set
    makes STATICCALL valid from HF5 while chainRules.IsByzantium — which is what enforceRestrictions
    tests — only holds from HF7.  At height 30000 the program  0xbb: STATICCALL(gas,0xcc,0,0,0,0) STOP,
    0xcc: SSTORE(1,0x2a) STOP  succeeds and changes the storage of 0xcc inside the static call. *)
